@@ -2,6 +2,9 @@ package props
 
 import (
 	"fmt"
+	"go/constant"
+	"go/token"
+	"go/types"
 	"os"
 	"sort"
 	"strings"
@@ -21,7 +24,7 @@ func runC15(c *Ctx) {
 		"(the loop has a concrete trip count there): the result must be 0xffff, ^b0 and ^(b1<<8|b0); composed with the way every caller stores the result (IPv4 header bytes 10/11, ICMP bytes 2/3: low byte at the lower address) " +
 		"the stored bytes are (^b0, ^b1) — the RFC 1071 checksum of a two-byte message — so word assembly, complement, odd-length tail and store order agree. (coverage) IP4.CalculateChecksum sums exactly header bytes 0-9 and 12-19 with the checksum field as zero; " +
 		"the ICMPv6 pseudo-header built by icmp6SendPacket is src(16) dst(16) length(4, big endian) 0 0 0 58 followed by the whole message. (safety) every index in Checksum is in range for every length, and the loop terminates. " +
-		"Not decided: the arithmetic for longer inputs (carry folding, accumulator width) — equality with RFC 1071 for all byte strings is a numerical property."
+		"(fold) the sum is truncated to 16 bits only after the end-around carry was added back: the operand of the final truncation is bounded by interval evaluation (y + (y>>16) with y <= 0x1fffe, or <= 0xffff). Not decided: the arithmetic for longer inputs in general (accumulator width for inputs over 128 KiB) — equality with RFC 1071 for all byte strings is a numerical property."
 	r.Rule("orientation", "Checksum on 0/1/2-byte inputs and the store order of its callers yield the RFC 1071 bytes", 5)
 	r.Rule("coverage", "bytes covered by the IPv4 header checksum and the ICMPv6 pseudo-header", 2)
 	r.Rule("safety", "Checksum is in bounds for all lengths and terminates", 1)
@@ -258,6 +261,8 @@ func runC15(c *Ctx) {
 			Basis: "src(16) dst(16) len(4) 0 0 0 58 message (RFC 8200 section 8.1)", Detail: det})
 	}
 
+	runC15Fold(c, cs)
+
 	// ---- safety ----
 	var fails []string
 	n := 0
@@ -282,4 +287,122 @@ func runC15(c *Ctx) {
 	}
 	r.Add(core.Obligation{Rule: "safety", Key: "safety Checksum", Func: core.FuncName(cs), Pos: c.P.Pos(cs.Pos()), Status: st,
 		Basis: fmt.Sprintf("%d bounds obligations proved for every length; the loop has a ranking function", n), Detail: det})
+}
+
+// ---- fold: no carry is lost when the accumulator is truncated to 16 bits ----
+
+// upperBound is a tiny interval evaluator for unsigned expressions: an upper bound of v, or the type maximum.
+func upperBound(v ssa.Value, depth int) uint64 {
+	tmax := func(t types.Type) uint64 {
+		if b, ok := t.Underlying().(*types.Basic); ok {
+			switch b.Kind() {
+			case types.Uint8:
+				return 0xff
+			case types.Uint16:
+				return 0xffff
+			case types.Uint32:
+				return 0xffffffff
+			}
+		}
+		return ^uint64(0)
+	}
+	if depth > 12 {
+		return tmax(v.Type())
+	}
+	min := func(a, b uint64) uint64 {
+		if a < b {
+			return a
+		}
+		return b
+	}
+	switch t := v.(type) {
+	case *ssa.Const:
+		if t.Value != nil {
+			if u, ok := constant.Uint64Val(t.Value); ok {
+				return u
+			}
+		}
+	case *ssa.Convert:
+		return min(upperBound(t.X, depth+1), tmax(t.Type()))
+	case *ssa.BinOp:
+		x, y := upperBound(t.X, depth+1), upperBound(t.Y, depth+1)
+		switch t.Op {
+		case token.SHR:
+			if k, ok := t.Y.(*ssa.Const); ok && k.Value != nil {
+				if s, ok := constant.Uint64Val(k.Value); ok && s < 64 {
+					return x >> s
+				}
+			}
+			return x
+		case token.AND:
+			return min(x, y)
+		case token.ADD:
+			if x > tmax(t.Type())-y {
+				return tmax(t.Type())
+			}
+			return x + y
+		case token.OR, token.XOR:
+			// below the next power of two of the larger operand
+			m := x
+			if y > m {
+				m = y
+			}
+			p := uint64(1)
+			for p <= m && p != 0 {
+				p <<= 1
+			}
+			return min(p-1, tmax(t.Type()))
+		}
+	}
+	return tmax(v.Type())
+}
+
+func runC15Fold(c *Ctx, cs *ssa.Function) {
+	r := c.R
+	r.Rule("fold", "the end-around carry is folded in before the sum is truncated to 16 bits", 1)
+	n := 0
+	core.EachInstr(cs, func(i ssa.Instruction) {
+		cv, ok := i.(*ssa.Convert)
+		if !ok {
+			return
+		}
+		if b, ok := cv.Type().Underlying().(*types.Basic); !ok || b.Kind() != types.Uint16 {
+			return
+		}
+		if sb, ok := cv.X.Type().Underlying().(*types.Basic); !ok || sb.Kind() != types.Uint32 {
+			return
+		}
+		n++
+		x := cv.X
+		st := core.Violated
+		hi := upperBound(x, 0)
+		det := fmt.Sprintf("the 32-bit sum %s (at most 0x%x) is truncated to 16 bits: a carry out of bit 15 is dropped instead of being added back (RFC 1071 end-around carry)", norm(x), hi)
+		basis := ""
+		switch {
+		case hi <= 0xffff:
+			st, det, basis = core.Proved, "", fmt.Sprintf("operand is at most 0x%x", hi)
+		default:
+			// y + (y >> 16) with y <= 0x1fffe: adding the single carry bit cannot carry again; bit 16 is dropped on purpose
+			if bo, ok := x.(*ssa.BinOp); ok && bo.Op == token.ADD {
+				for _, pair := range [][2]ssa.Value{{bo.X, bo.Y}, {bo.Y, bo.X}} {
+					y, sh := pair[0], pair[1]
+					if sb, ok := sh.(*ssa.BinOp); ok && sb.Op == token.SHR && sb.X == y {
+						if k, ok := sb.Y.(*ssa.Const); ok && k.Int64() == 16 {
+							if yh := upperBound(y, 0); yh <= 0x1fffe {
+								st, det, basis = core.Proved, "", fmt.Sprintf("y + (y>>16) with y at most 0x%x: the carry bit is added back and cannot carry again", yh)
+							}
+						}
+					}
+				}
+			}
+			// or a loop that folds until nothing is left above bit 15
+			if st != core.Proved && hasGuard(guardsOf(i), `^\(\(`+regexpQuote(norm(x))+`>>16\)==0\)$`) {
+				st, det, basis = core.Proved, "", "truncation only after (sum>>16) == 0"
+			}
+		}
+		r.Add(core.Obligation{Rule: "fold", Key: "fold Checksum truncation", Func: core.FuncName(cs), Pos: c.P.Pos(core.PosOf(i)), Status: st, Basis: basis, Detail: det})
+	})
+	if n == 0 {
+		r.Add(core.Obligation{Rule: "fold", Key: "fold Checksum truncation", Func: core.FuncName(cs), Status: core.Violated, Detail: "no 32-to-16-bit truncation found in Checksum"})
+	}
 }
